@@ -191,12 +191,18 @@ func URLToClientProfile(s string) (*pb.ClientProfile, error) {
 		p.Mtu = proto.Int32(int32(mtu))
 	}
 	if q.Get("multiplexing") != "" {
+		if _, ok := pb.MultiplexingLevel_value[q.Get("multiplexing")]; !ok {
+			return nil, fmt.Errorf("URL has invalid multiplexing level %q", q.Get("multiplexing"))
+		}
 		level := pb.MultiplexingLevel(pb.MultiplexingLevel_value[q.Get("multiplexing")])
 		p.Multiplexing = &pb.MultiplexingConfig{
 			Level: &level,
 		}
 	}
 	if q.Get("handshake-mode") != "" {
+		if _, ok := pb.HandshakeMode_value[q.Get("handshake-mode")]; !ok {
+			return nil, fmt.Errorf("URL has invalid handshake mode %q", q.Get("handshake-mode"))
+		}
 		mode := pb.HandshakeMode(pb.HandshakeMode_value[q.Get("handshake-mode")])
 		p.HandshakeMode = &mode
 	}
@@ -218,6 +224,9 @@ func URLToClientProfile(s string) (*pb.ClientProfile, error) {
 		return nil, fmt.Errorf("URL has mismatched number of port and number of protocol")
 	}
 	for idx, port := range portList {
+		if _, ok := pb.TransportProtocol_value[protocolList[idx]]; !ok {
+			return nil, fmt.Errorf("URL has invalid protocol %q", protocolList[idx])
+		}
 		portNum, err := strconv.Atoi(port)
 		if err != nil {
 			portRangeParts := strings.Split(port, "-")
